@@ -735,7 +735,16 @@ theorem gen_build_regions (cliques : List Region) (convex : Bool) :
 
 
 /-- **the certificate from the clique list on**: regenerated `__init__` filter (convex: the identity), regenerated closure (with the
-model's bound on the passes), regenerated `build_graph`, regenerated `hazan_peng_shashua` -/
+model's bound on the passes), regenerated `build_graph`, regenerated `hazan_peng_shashua`.
+
+HOW TO READ THE FOUR CONJUNCTS (independent audit, `audit/scratch/c17_a.lean`: `wrong_oracle_passes`).  Only conjunct 1 is about
+the ALGORITHM's output: the tables `hazan_peng_shashua` returns are the Lagrangian beliefs of the messages it returns.
+Conjuncts 2–4 — the message state has the `Shape` layout, weak duality `primal(q) ≤ dual(messages)` for every locally consistent
+`q`, and zero gap when the beliefs of the messages are themselves locally consistent — hold for EVERY message state with the
+layout (e.g. the initial messages after zero sweeps pass them verbatim), not specially for the one the algorithm computes: that is
+what a CERTIFICATE is — a bound anyone can check from the returned messages without trusting how they were produced.  They do NOT
+say the algorithm converges, nor that its dual value is small; how good the bound is after `iters` sweeps is a per-input test
+(C17 check).  Conjunct 1 is what makes the certificate speak about the returned marginals. -/
 theorem gen_hps_certificate_source (dom : Dom) (cliques regions : List Region) (minimal : Bool) (potentials : CliqueVec ℝ)
     (T rho conv : ℝ) (iters : Nat) (hT : 0 < T) (hit : 0 < iters)
     (hd : dom.WF) (hsz : ∀ p ∈ dom, 0 < p.2) (hcl : ∀ c ∈ cliques, PGM.Convex.RegOK dom c)
